@@ -36,12 +36,8 @@ func (f *frame) preservedHeaps(callee *ssa.Function) map[string]bool {
 				continue
 			}
 			backed = true
-			if callee != nil {
-				for _, w := range st.Items {
-					if w == funcKey(callee) || w == topKey(callee) {
-						writer = true
-					}
-				}
+			if callee != nil && reachesAny(callee, st.Items, map[*ssa.Function]bool{}, 0) {
+				writer = true
 			}
 		}
 		if !backed {
@@ -77,4 +73,35 @@ func (f *frame) preservedHeaps(callee *ssa.Function) map[string]bool {
 		c.note("abstract calls in " + funcKey(root.fn) + " are assumed not to modify " + item + " (closed by the structural writers obligation on that field; other maps of the same Go type are not distinguished)")
 	}
 	return out
+}
+
+// reachesAny: can fn reach (through static calls inside its package, closures
+// included) one of the listed writer functions?
+func reachesAny(fn *ssa.Function, writers []string, seen map[*ssa.Function]bool, depth int) bool {
+	if fn == nil || seen[fn] || depth > 12 {
+		return false
+	}
+	seen[fn] = true
+	for _, w := range writers {
+		if w == funcKey(fn) || w == topKey(fn) {
+			return true
+		}
+	}
+	for _, b := range fn.Blocks {
+		for _, in := range b.Instrs {
+			if ci, ok := in.(ssa.CallInstruction); ok {
+				if callee := ci.Common().StaticCallee(); callee != nil && ssaPkgOf(callee) == ssaPkgOf(fn) {
+					if reachesAny(callee, writers, seen, depth+1) {
+						return true
+					}
+				}
+			}
+			if mc, ok := in.(*ssa.MakeClosure); ok {
+				if reachesAny(mc.Fn.(*ssa.Function), writers, seen, depth+1) {
+					return true
+				}
+			}
+		}
+	}
+	return false
 }
